@@ -136,8 +136,12 @@ func vExpectAfterCrash(id string, fs *vrt.FS, h2 *vDB, universe [][]byte, acks [
 	}
 }
 
-func vCrashOpts(async bool) []ExtraOption {
-	o := []ExtraOption{MemstoreSizeBytes(math.MaxUint64), WriteBufferSizeBytes(64), ReadBufferSizeBytes(64)}
+func vCrashOpts(async bool) []ExtraOption { return vCrashOptsM(async, math.MaxUint64) }
+
+// vCrashOptsM: with a symbolic memstore limit the rotation also happens inside PutBytes, wherever the solver
+// places it.
+func vCrashOptsM(async bool, memstore uint64) []ExtraOption {
+	o := []ExtraOption{MemstoreSizeBytes(memstore), WriteBufferSizeBytes(64), ReadBufferSizeBytes(64)}
 	if async {
 		o = append(o, EnableAsyncWAL())
 	}
@@ -152,7 +156,7 @@ func H_C02_Crash() {
 	defer h.fs.Cleanup()
 	base := h.fs.Base()
 	h.fs.TraceStart()
-	vrt.Assert(h.open(vCrashOpts(false)...) == nil, "crash/open-no-error")
+	vrt.Assert(h.open(vCrashOptsM(false, vrt.U64("memstore"))...) == nil, "crash/open-no-error")
 	s := &vSession{h: h}
 	steps := 3
 	if vrt.Thorough() {
@@ -290,7 +294,7 @@ func H_C13_AsyncCrash() {
 	defer h.fs.Cleanup()
 	base := h.fs.Base()
 	h.fs.TraceStart()
-	vrt.Assert(h.open(vCrashOpts(true)...) == nil, "async/open-no-error")
+	vrt.Assert(h.open(vCrashOptsM(true, vrt.U64("memstore"))...) == nil, "async/open-no-error")
 	s := &vSession{h: h}
 	var rotations []string
 	var acksAtRotation []int
